@@ -13,7 +13,7 @@ def run_all():
             "reg=check.load_all(); fq=check.closure_of(reg,'ALL')\n"
             "recs=runner.verify_functions(fq,tier='quick',jobs=16)\n"
             "json.dump(recs,open('/tmp/matrix_recs.json','w'))\n" % VERIF)
-    subprocess.run(["python3-vt", "-c", code], check=True, cwd=VERIF)
+    subprocess.run(["python3-vt", "-c", code], check=True, cwd=VERIF, env=dict(os.environ, PYTHONHASHSEED="0"))   # as ./check does
     return json.load(open("/tmp/matrix_recs.json"))
 
 def main():
